@@ -42,7 +42,7 @@ impl Prop for C14 {
         let mut o = Outcome::default();
         let mut rng = Rng::new(get(c, "seed").parse().unwrap_or(0));
         let init = get(c, "init"); let n = getn(c, "n");
-        let name_pool = ["dave", "erin with spaces", "frédérique", "名前", "g=h", "#hash", "i]j[", "k'l\"m"];
+        let name_pool = ["team=dev", "team=ops", "dave", "erin with spaces", "frédérique", "名前", "#hash", "i]j[", "k'l\"m", "Name", "[Key]"];
         let mut names: Vec<String> = (0..n).map(|i| if i == 3 { "x".repeat(128) } else if i < name_pool.len() { name_pool[(i + rng.below(2)) % name_pool.len()].to_string() } else { format!("key number {}", i) }).collect();
         names.dedup(); let mut seen = std::collections::HashSet::new(); names.retain(|x| seen.insert(x.clone()));
         let pws = ["", "pw", "pässwörd 🔑"];
